@@ -349,7 +349,13 @@ func (e *orderEnv) lightBehaviour(p *provInst) map[string]string {
 	ccLine := refusalLine(cc)
 	if cc.Success() {
 		m := cc.JSON()
-		ccLine = fmt.Sprintf("%d access_token-present=%v token_type=%v expires_in=%v scope=%v id_token-present=%v refresh_token-present=%v", cc.Status, cc.Str("access_token") != "", m["token_type"], m["expires_in"], m["scope"], m["id_token"] != nil, m["refresh_token"] != nil)
+		// expires_in counts down from the moment the storage created the token: compared to the nearest minute (under load a
+		// second boundary falls between the storage call and the response now and then)
+		exp := "absent"
+		if f, ok := m["expires_in"].(float64); ok {
+			exp = fmt.Sprintf("~%dmin", int(f+30)/60)
+		}
+		ccLine = fmt.Sprintf("%d access_token-present=%v token_type=%v expires_in=%s scope=%v id_token-present=%v refresh_token-present=%v", cc.Status, cc.Str("access_token") != "", m["token_type"], exp, m["scope"], m["id_token"] != nil, m["refresh_token"] != nil)
 	}
 	// and a signed one: the JWT access token of the JWT service client verifies with the key set published just now
 	if os.Getenv("C20_NOKEYS") == "" {
